@@ -90,9 +90,15 @@ func styleUsesPrepare(s int) bool { return s == 2 || s == 5 || s == 6 }
 
 type hkCtxKey struct{}
 
-func hookWriter(tx *gorm.DB) *gorm.DB {
+func hookWriter(tx *gorm.DB) *gorm.DB { return deriveFrom(hookStyle, tx) }
+
+// rstyles: the styles an AfterFind hook may run a whole operation on: those that start from a new statement and keep
+// the default transaction
+var rstyles = []int{0, 1, 2, 3, 5}
+
+func deriveFrom(style int, tx *gorm.DB) *gorm.DB {
 	ctx := context.WithValue(context.Background(), hkCtxKey{}, 1)
-	switch hookStyle {
+	switch style {
 	case 1:
 		return tx.Session(&gorm.Session{NewDB: true})
 	case 2:
@@ -165,7 +171,7 @@ func (e *Entry) BeforeCreate(tx *gorm.DB) error { return hkHook("BeforeCreate", 
 func (e *Entry) AfterCreate(tx *gorm.DB) error  { return hkHook("AfterCreate", "Entry", e.Memo, tx) }
 func (e *Entry) BeforeDelete(tx *gorm.DB) error { return hkHook("BeforeDelete", "Entry", e.Memo, tx) }
 
-var hkKinds = []string{"HkCreate", "HkCreateSlice", "HkCreateInBatches", "HkSave", "HkUpdate", "HkUpdatesAssoc", "HkDelete", "HkDeleteSelect"}
+var hkKinds = []string{"HkCreate", "HkCreateSlice", "HkCreateInBatches", "HkSave", "HkUpdate", "HkUpdatesAssoc", "HkDelete", "HkDeleteSelect", "HkSaveAbsent"}
 
 func isHk(kind string) bool { return len(kind) > 2 && kind[:2] == "Hk" }
 
@@ -217,6 +223,20 @@ func hkGenOp(kind string, seed uint64) txm.Op {
 		op.Run = func(db *gorm.DB) *gorm.DB {
 			return db.Save(&Acct{ID: 1, Name: "a2", Bal: 11, Entries: []Entry{{ID: 1, AcctID: 1, Memo: "e1"}, {Memo: "m" + tag}}})
 		}
+	case "HkSaveAbsent":
+		// the key is set but no such row exists: an UPDATE pipeline (changes no row) and then an INSERT .. ON CONFLICT pipeline
+		build := func(adds txm.Counts) *Acct {
+			r := mk()
+			id := absentKey(r)
+			a := hkAcct(r, tag, 1, adds)
+			a.ID = id
+			return a
+		}
+		adds := txm.Counts{}
+		a := build(adds)
+		op.Adds = adds
+		op.Desc = fmt.Sprintf("db.Save(&Acct{ID:%d /* no such row */, Name:%q, Entries:%d new})", a.ID, a.Name, len(a.Entries))
+		op.Run = func(db *gorm.DB) *gorm.DB { return db.Save(build(txm.Counts{})) }
 	case "HkUpdate":
 		id := int64(mk().Range(1, 3))
 		op.Desc = fmt.Sprintf("db.Model(&Acct{ID:%d}).Update(\"name\", \"zed\")", id)
